@@ -201,6 +201,16 @@ def _c17_instances():
             ("a2_b2", "2 user rules, len [2 | 2]", "thorough", 20)):
         out.append(I(f"c17::c17_first_{tag}", tier, bounds="FIRST/nullable, " + b + ", all slots symbolic, unwind 6",
                      est_gb=est, mem_gb=30, timeout_s=3600, est_s=400))
+    # FOLLOW: affordable only with the kind of every slot concrete, one user token and the minimal unwind (5):
+    # 12 min / 29 GB; thorough tier only.  The shape is split along the known finding (known_findings.json):
+    # `_rest` = every grammar of the shape but `A: A B t; B: ;` (must verify), `_known` = that grammar alone (its
+    # failure "FOLLOW: ... (nothing missing)" is the known finding; anything else it fails is a violation).
+    b = ("FOLLOW (YaccFollows::new) at the shape A: R R T; B: (empty) -- which user rule stands in each R slot is free, one "
+         "user token, unwind 5; FIRST / nullable for the oracle from an in-harness reference iteration; ")
+    out.append(I("c17::c17_fok_t2_a3_b0_rrt_rest", "thorough", bounds=b + "all grammars of the shape except A: A B t",
+                 est_gb=34, mem_gb=48, timeout_s=3600, est_s=800))
+    out.append(I("c17::c17_fok_t2_a3_b0_rrt_known", "thorough", bounds=b + "the grammar A: A B t; B: ; alone (known finding)",
+                 est_gb=20, mem_gb=48, timeout_s=3600, est_s=400))
     return out
 
 
@@ -209,6 +219,7 @@ PROPS["C17"] = {
         "cfgrammar::yacc::YaccGrammar::has_path", "cfgrammar::yacc::grammar::rule_min_costs",
         "cfgrammar::yacc::grammar::rule_max_costs", "SentenceGenerator::{new, min_sentence_cost, max_sentence_cost}",
         "cfgrammar::yacc::firsts::YaccFirsts::{new, is_set, is_epsilon_set, set}",
+        "cfgrammar::yacc::follows::YaccFollows::{new, is_set} (thorough tier, one shape)",
         "YaccGrammar::{iter_rules, rule_to_prods, prod, prod_to_rule, rules_len}",
     ],
     "bounds": {
@@ -225,9 +236,9 @@ PROPS["C17"] = {
                     "four user rules (a2_b1_c2_d1: 25 has_path calls, 35 min / 24 GB)",
     },
     "outside_claim": [
-        "FOLLOW (YaccFollows::new): out of memory at the smallest relevant shape (DESIGN 4, probe 21; again at "
-        "21 GB with the as-built harness, 36 GB with a single user token); FIRST / nullable only at four small "
-        "shapes (15-20 GB each; one of them in the quick tier)",
+        "FOLLOW (YaccFollows::new) beyond the single thorough-tier shape (A: R R T; B: empty, one user token, slot kinds "
+        "concrete): every larger or fully symbolic shape ran out of memory (DESIGN 8.2); FIRST / nullable only at four "
+        "small shapes (15-20 GB each; one of them in the quick tier)",
         "min_sentence / min_sentences: symbolic execution 23 min then out of memory at 25 GB on the smallest shape",
         "grammars with more rules / productions / longer productions than the domain",
         "maximum cost of rules on unit-only cycles: 'recursive' and 'unbounded' differ there; None is accepted "
